@@ -219,9 +219,43 @@ def run_check(run, tier):
                 run.add(name, 'unknown', cur['backend'], cur['ms'], fq, cur.get('detail', ''))
                 run.undecide(name, 'solver: ' + cur.get('detail', ''))
     ioctl_contract(run, sess, spec, tier)
+    verify_flag_slot_sources(run, tier)
     run.extra['flag_functions'] = [f for _, f, _, _, _, _ in C.FUNCTIONS]
     run.samples.append({'obligation': 'C11/serialize_open_flags/complete.O_CREAT',
                         'goal': '(word & 0x200 != 0) => O_CREAT in result   for every 0 <= word < 2^64'})
+
+
+def an_C11_slots(mod, name, paths, fq):
+    """which word is decoded: a decoder that shows a parameter symbolically (a list of flag names) decodes the START word at
+    that parameter's own position (the positional clause of C09, restricted to the decoders with flag parameters)"""
+    from checks import decoder_checks as DCK
+    from pyvc import textform
+
+    def has_flag_list(s):
+        if s.text is None:
+            return False
+        for conds, toks in textform.flatten(s.text):
+            for tk in toks:
+                if tk[0] in ('join', 'flagname'):
+                    return True
+        return False
+    if not any(has_flag_list(s) for s in paths if s.outcome == 'return'):
+        return []
+    out = []
+    for r in DCK.an_C09(mod, name, paths, fq):
+        if '.source' not in r['name']:
+            continue
+        r = dict(r)
+        r['name'] = r['name'].replace('C09/', 'C11/flag-parameter-position/', 1)
+        out.append(r)
+    return out
+
+
+def verify_flag_slot_sources(run, tier):
+    from checks import decoder_checks as DCK
+    DCK.ANALYSES['C11'] = an_C11_slots
+    recs, _ = DCK.run_pool(run, 'C11')
+    DCK.absorb(run, recs)
 
 
 def ioctl_contract(run, sess, spec, tier):
